@@ -615,6 +615,7 @@ type Config struct {
 	Tally         bool
 	CrossCheck    int
 	MaxViol       int
+	CapPrefixes   []string
 	RetryMs       int
 }
 
@@ -652,6 +653,31 @@ func (e *Explorer) tally(what, fn string) {
 	}
 	e.decKinds[what+" @ "+fn]++
 	e.mu.Unlock()
+}
+
+// countsTowardCap: a violating path class counts toward -maxviol only if it is a
+// panic or its assertion label belongs to the property being checked.
+func (e *Explorer) countsTowardCap(res *PathResult) bool {
+	if res.Status == "panic" {
+		return true
+	}
+	if res.Status != "violation" {
+		return false
+	}
+	if len(e.cfg.CapPrefixes) == 0 {
+		return true
+	}
+	for _, ev := range res.Events {
+		if ev.Kind != "assert" {
+			continue
+		}
+		for _, p := range e.cfg.CapPrefixes {
+			if strings.HasPrefix(ev.Label, p) {
+				return true
+			}
+		}
+	}
+	return false
 }
 
 func (e *Explorer) noteCross(v string) {
@@ -733,7 +759,7 @@ func (e *Explorer) worker(w int) {
 		res := e.runPath(solver, prefix, item.model, id)
 		e.mu.Lock()
 		e.results = append(e.results, res)
-		if res.Status == "violation" || res.Status == "panic" {
+		if e.countsTowardCap(res) {
 			e.nViol++
 			if e.cfg.MaxViol > 0 && e.nViol >= e.cfg.MaxViol {
 				// enough counterexamples: stop exploring (the run is reported as incomplete)
